@@ -21,7 +21,9 @@ func genSegDesc(t *rapid.T, allowForeign bool) ref.SpliceDesc {
 		if tag == 2 {
 			tag = 3
 		}
-		return ref.SpliceDesc{Foreign: true, FTag: tag, FBody: genBytes(t, 0, 12, "fbody")}
+		// every splice_descriptor starts with a 32-bit identifier (SCTE 35 10.1); somebody else's identifier, then private bytes
+		id := rapid.SampledFrom([]string{"ABCD", "XYZ1", "GA94", "DTG1", "cuei"}).Draw(t, "fident")
+		return ref.SpliceDesc{Foreign: true, FTag: tag, FBody: append([]byte(id), genBytes(t, 0, 8, "fbody")...)}
 	}
 	d := ref.SpliceDesc{Identifier: ref.CUEI}
 	d.Event = uint32(genBits(t, 32, "seg-event"))
